@@ -341,9 +341,10 @@ def _hsic_estimators():
     return {"binary": BinaryEstimator, "rbf": RbfEstimator, "sobolev": SobolevEstimator}
 
 
-def kappa_table(masks2d):
-    """rbf input kernel values, computed by the implementation's own kernel function, for every
-    difference of two values of one mask cell (keyed by the exact difference)"""
+def kappa_table(masks2d, ctx=None, dsc=None):
+    """rbf input kernel values for every difference of two values of one mask cell (keyed by the exact difference): the
+    documented Gaussian profile exp(-(x-y)^2 / (2 * 0.5^2)) computed HERE; the implementation's kernels.rbf is compared
+    with it (predicate), never used as its own oracle"""
     import tensorflow as tf
     from xplique.attributions.global_sensitivity_analysis.kernels import Kernel
     diffs = {}
@@ -355,7 +356,11 @@ def kappa_table(masks2d):
     keys = list(diffs)
     xs = tf.constant([diffs[k][0] for k in keys], tf.float32)
     ys = tf.constant([diffs[k][1] for k in keys], tf.float32)
-    vals = Kernel.from_string("rbf")(xs, ys, width=0.5).numpy()
+    impl_vals = Kernel.from_string("rbf")(xs, ys, width=0.5).numpy()
+    dif = np.array([float(k) for k in keys], dtype=np.float64)
+    vals = np.exp(-(dif ** 2) / (2 * 0.5 ** 2)).astype(np.float32)
+    if ctx is not None:
+        ctx.check_pred("rbf-kernel-is-documented-gaussian", impl_vals, [fr(v) for v in vals], dsc or {}, rtol=2e-6, atol=1e-30)
     return [[enc(k), enc(v)] for k, v in zip(keys, vals)]
 
 
@@ -367,11 +372,19 @@ def hsic_model(ctx, est, kernel, g, n, ebs, masks, outputs, spec=False):
     if not np.all(np.isfinite(gram)):
         # median of the scores exactly 0 -> rbf width 0 -> 0/0: the estimator is undefined (NaN)
         return None, gram
+    # output Gram matrix: documented rbf of the scores with width = median(scores), computed HERE; the implementation's
+    # output_kernel_func is compared with it and the reference is what the model receives
+    y64 = np.asarray(outputs, dtype=np.float32).astype(np.float64).reshape(n)
+    wy = float(np.float32(np.percentile(np.asarray(outputs, dtype=np.float32), 50.0)))
+    gram_ref = np.exp(-((y64[:, None] - y64[None, :]) ** 2) / (2 * wy * wy)).astype(np.float32)
+    ctx.check_pred("output-gram-is-rbf-with-median-width", gram, [[fr(v) for v in row] for row in gram_ref], {"n": n, "g": g, "kernel": kernel},
+                   rtol=1e-4, atol=1e-12)      # the float32 exponent carries a relative error of |arg| * 2^-23
+    gram = gram_ref
     m2 = masks.reshape(n, g * g)
     op = {"op": "hsic", "kernel": kernel, "g": g, "n": n, "bsz": ebs if ebs is not None else 100000,
           "masks": enc(m2), "L": enc(gram), "spec": bool(spec)}
     if kernel == "rbf":
-        op["kappa"] = kappa_table(m2)
+        op["kappa"] = kappa_table(m2, ctx, {"n": n, "g": g, "kernel": kernel})
     return ctx.driver.call(op), gram
 
 
